@@ -1010,6 +1010,30 @@ func c09(c *core.Ctx) {
 				}
 			}
 		}
+		// inline form: the loop over the collected accounts puts each encoding into the batch itself
+		if !flows && len(cm) == 1 {
+			batch := cm[0].Common().Args[len(cm[0].Common().Args)-1]
+			for _, ci := range core.AllCalls(bc) {
+				o := core.CalleeObj(ci)
+				if o == nil || o.Name() != "Put" || ci == cm[0] {
+					continue
+				}
+				recv := c4Recv(ci)
+				if recv == nil {
+					continue
+				}
+				sameBatch := recv == batch || core.Derived(batch)[recv] || core.SliceShallow(recv)[batch] || sameCellLoad(recv, batch) || core.SameLoc(recv, batch)
+				fromCollect := false
+				for _, a := range c4Args(ci) {
+					if core.Slice(a)[cs[0].Value()] {
+						fromCollect = true
+					}
+				}
+				if sameBatch && fromCollect && core.ReachableAfter(ci, cm[0]) && !core.ReachableAfter(cm[0], ci) {
+					flows = true
+				}
+			}
+		}
 		c.Check("blockCommit:Collect→batch→Commit", "value-flow", flows, cs[0].Pos(), "the collected accounts are encoded into the very batch that Beansdb.Commit writes, before it is committed")
 	})
 
